@@ -182,6 +182,28 @@ fn only_tightened(a: &LinearModel, b: &LinearModel) -> bool {
     lm_diff(a, &sb.to_rooc()).is_none()
 }
 
+/// compares two linear models after removing, on both sides, the variables whose column is all zero
+pub fn lm_diff_modulo_unused_pub(a: &LinearModel, b: &LinearModel) -> Option<String> {
+    let strip = |m: &LinearModel| -> Option<LinearModel> {
+        let sa = LmSpec::from_rooc(m)?;
+        let used: Vec<usize> = (0..sa.vars.len()).filter(|&i| (sa.sense != Sense::Satisfy && sa.obj[i] != 0.0) || sa.rows.iter().any(|r| r.coef[i] != 0.0)).collect();
+        Some(
+            LmSpec {
+                vars: used.iter().map(|&i| sa.vars[i].clone()).collect(),
+                rows: sa.rows.iter().map(|r| Row { coef: used.iter().map(|&i| r.coef[i]).collect(), rel: r.rel, rhs: r.rhs, name: r.name.clone() }).collect(),
+                obj: used.iter().map(|&i| sa.obj[i]).collect(),
+                offset: sa.offset,
+                sense: sa.sense,
+            }
+            .to_rooc(),
+        )
+    };
+    match (strip(a), strip(b)) {
+        (Some(x), Some(y)) => lm_diff(&x, &y),
+        _ => Some("unsupported relation".into()),
+    }
+}
+
 /// a variable with an all-zero column never reaches the recompiled model (it is unused); project it away
 fn lm_diff_modulo_unused(a: &LinearModel, b: &LinearModel) -> Option<String> {
     let Some(sa) = LmSpec::from_rooc(a) else { return Some("unsupported".into()) };
